@@ -62,7 +62,7 @@ CHECKS = {
    note=TRUST + "labels written inside raw blocks are the author's text and exempt.", ref="DESIGN.md sec. 5/C15"),
  "C07": dict(cat="model_checking", engine="formattext",
    tech="TLA+ state machine of the greedy text-box filler (FormatText.tla) model-checked by TLC, and conformance of the real FormatText / format() against FormatText!Run",
-   text="FormatText.tla (Place / Wrap / Break / Finish) is model-checked for every token list of <= 4 tokens over word widths 1..3 and the four break codes x max 3..6 x overlap 0..2 x numLines 1..3: words kept in order, every multi-word line fits (with the overlap where the prompt is shown), break discipline, a word is moved only if it does not fit. The REAL FormatText is then run on renderings of the same family (irregular spacing, glued codes, control codes in braces incl. one with a blank, a multi-byte letter, synthetic font tables) and its lines must be exactly the model's; format(...) through the real parser with positional, named, option and font-config parameters is compared with the model under the documented precedence.",
+   text="FormatText.tla (Place / Wrap / Break / Finish) is model-checked for every token list of <= 4 tokens over word widths 1..3 and the four break codes x max 3..6 x overlap 0..2 x numLines 1..3: words kept in order, every multi-word line fits (with the overlap where the prompt is shown), break discipline, a word is moved only if it does not fit. The REAL FormatText is then run on renderings of the same family (irregular spacing, glued codes, control codes in braces incl. one with a blank, a multi-byte letter, synthetic font tables) and its lines must be exactly the model's; format(...) through the real parser with positional, named, option and font-config parameters is compared with the model under the documented precedence. The real function is also run on every character string of length <= 5 (6) over {a, blank, backslash, n, p, N, {, }} and compared with FormatLex!Formatted (the tokeniser of getNextWord in TLA+ followed by the filler); differences on texts whose reading the property fixes are violations. Thorough: the invariants with symbolic widths (Apalache, FormatTextSym.tla).",
    note=TRUST + "'prompt may follow' = another token follows and the line is the last of the box or the next token is \\p.", ref="DESIGN.md sec. 5/C07"),
  "C16": dict(cat="exploration", engine="linemarkers",
    tech="TLA+ predicates (LineMarkers.tla) on three real compilations per file, markers traced to constructs through identity tokens",
